@@ -29,7 +29,7 @@ ASSUMPTIONS = [
     "accepted windows = valid_window mask; resonance statistics use the accepted windows that hold a peak",
     "states with fewer than two accepted windows holding a peak are recorded but not judged",
 ]
-NOT_REACHED = ["find_peaks_kwargs other than None/{}", "masks of the wrong length assigned by hand"]
+NOT_REACHED = ["find_peaks_kwargs other than height / prominence (one range update in eight of the random histories)", "masks of the wrong length assigned by hand"]
 BUDGET = {"quick": dict(cases=2400, seconds=60, shards=4),
           "thorough": dict(cases=80000, seconds=600, shards=16)}
 REQUIRED = ["mon:textbook-estimator", "mon:accepted-only-twin", "mon:poisoned-rejected-rows-bit-identical",
